@@ -80,6 +80,26 @@ def set_linger(sock, enable, timeout):
     sock.setsockopt(socket.SOL_SOCKET, socket.SO_LINGER, opt_bytes)
 
 
+def close_after_peer(sock, timeout=5):
+    ''' Close a connection we are done sending on without throwing away what the peer has not read yet.
+        Closing a socket which still holds unread input (e.g., arguments a dead child never got to) resets the connection
+        and the peer loses whatever part of the last messages is still on its way. So: signal the end of our data, read
+        (and drop) the input until the peer - done with reading - hangs up, or until ``timeout`` passes, close only then.
+    '''
+    try:
+        sock.shutdown(socket.SHUT_WR)
+        sock.settimeout(timeout)
+        while sock.recv(65536):
+            pass
+    except OSError:
+        pass
+    finally:
+        try:
+            sock.close()
+        except OSError:
+            pass
+
+
 def set_keepalive(sock, enable, time=None, interval=None, probes=None):
     opt_bytes = struct.pack('h' if is_windows() else 'i', int(enable))
     sock.setsockopt(socket.SOL_SOCKET, socket.SO_KEEPALIVE, opt_bytes)
@@ -737,11 +757,9 @@ class RemoteWorker(Worker, metaclass=RemoteWorkerMeta):
             while True:
                 ready = mp.connection.wait([self._ctrl_sock, self._child.sentinel])
                 if self._child.sentinel in ready:
-                    try:
-                        self._socket.shutdown(socket.SHUT_WR)
-                        self._socket.close()
-                    except OSError:
-                        pass
+                    # the last close of the data connection, see close_after_peer (not to keep the parent waiting for
+                    # answers to its control messages it happens aside)
+                    threading.Thread(target=close_after_peer, args=(self._socket, ), daemon=True).start()
                     raise GracefulExitError()
                 msg = recv_msg(self._ctrl_sock, comment='ctrl: generic')
                 if msg is None:
